@@ -1584,6 +1584,14 @@ def r_spread(E):
                 for x in ast.walk(_fxm(c, fn)):
                     if isinstance(x, ast.Name) and x.id in ps:
                         out.add(x.id)
+            # placed by walking the *set* of the members (`for h in set(hours) & set(range(24)): values[…] = share`): each
+            # distinct member is placed once, as with a membership test
+            if isinstance(n, (ast.For, ast.comprehension)):
+                it_ = _fxm(n.iter, fn)
+                if any(isinstance(c_, ast.Call) and norm(c_.func) in ("set", "frozenset") for c_ in ast.walk(it_)):
+                    for x in ast.walk(it_):
+                        if isinstance(x, ast.Name) and x.id in ps:
+                            out.add(x.id)
             if isinstance(n, ast.Call) and isinstance(n.func, ast.Name) and n.func.id in fns and n.func.id not in seen \
                     and n.func.id != fn.name:
                 callee = fns[n.func.id]
@@ -1743,6 +1751,23 @@ def r_onesided(E):
                         comp.lineno, fn.name))
                 elif len(res.samples) < 3:
                     res.samples.append({"function": fn.name, "positions": norm(elt)[:60], "verdict": "bounded on both sides"})
+    # a strided slice `values[first::24]` whose first position is a bare difference: negative when the subtrahend is the
+    # larger one (a requested hour earlier than the start hour), and a negative start counts from the end of the array — the
+    # stride then covers one stray position near the end instead of that hour of every day. `(a - b) % 24` does not.
+    for fn in [f for f in ast.walk(tree) if isinstance(f, ast.FunctionDef)]:
+        for sub in [n for n in ast.walk(fn) if isinstance(n, ast.Subscript) and isinstance(n.slice, ast.Slice)
+                    and n.slice.step is not None and n.slice.lower is not None]:
+            res.instances += 1
+            lo = fully_expanded(n_ := sub.slice.lower, fn)
+            if isinstance(lo, ast.BinOp) and isinstance(lo.op, ast.Sub) and not isinstance(lo.right, ast.Constant):
+                res.findings.append(Finding(
+                    "R-ONESIDED", f"{fn.name} :: strided slice from {norm(lo)[:50]}",
+                    f"{fn.name} fills `{norm(sub)[:70]}`: the first position `{norm(lo)[:50]}` is negative whenever "
+                    f"`{norm(lo.right)[:30]}` is the larger term (a chosen hour earlier than the hour the series starts at), and "
+                    f"numpy counts a negative start from the end of the array — that hour of the day is never filled and one "
+                    f"stray value lands near the end of the series", rel, sub.lineno, fn.name))
+            elif len(res.samples) < 3:
+                res.samples.append({"function": fn.name, "strided slice": norm(sub)[:70], "verdict": "first position not a bare difference"})
     res.samples.append({"embedded": "expected count on the pinned tree: 0 (no position arithmetic); checked on refactorings"})
     return res
 
